@@ -307,10 +307,23 @@ func recC12(c *ctx) {
 		if h%2 == 0 {
 			bv.Reset()
 			bemit(vt.Ev{"op": "srbreset"})
-			for _, delta := range []int64{1, -1} {
+			// ... adjacent, or d positions apart with valid entries in between (coefficients must be independent across
+			// the whole batch)
+			dists := []int{1, 16, 2, 8, 32, 4, 17, 64}
+			d := dists[(h/2)%len(dists)]
+			for idx := 0; idx <= d; idx++ {
 				k, _ := sr25519.GenerateKeyPair(bytes.NewReader(r.Bytes(4096)))
 				msg := r.Bytes(10)
 				sig, _ := k.Sign(bytes.NewReader(r.Bytes(64)), sctx.NewTranscriptBytes(msg))
+				if idx != 0 && idx != d {
+					bv.Add(k.PublicKey(), sctx.NewTranscriptBytes(msg), sig)
+					bemit(vt.Ev{"op": "srbadd", "kind": "valid", "single": k.PublicKey().Verify(sctx.NewTranscriptBytes(msg), sig)})
+					continue
+				}
+				delta := int64(1)
+				if idx == d {
+					delta = -1
+				}
 				sbb, _ := sig.MarshalBinary()
 				sv := vt.FromLE(append(append([]byte(nil), sbb[32:63]...), sbb[63]&0x7f))
 				sv.Add(sv, big.NewInt(delta))
